@@ -2,8 +2,10 @@
 
 Every public summary method of DensePhasedGenotypeMatrix / DenseGenotypeMatrix is called on seeded hostile matrices
 (family "mat": fresh objects; "hist": live objects along in-place operation histories; "derive": matrices returned by
-the library's structural operations; "gt": the outputs of all genotyping protocols with masks and inversion); the
-returned values are judged by the integer/Fraction reference model in pbmon/oracle/c09_popgen.py.
+the library's structural operations; "gt": the outputs of all genotyping protocols with masks and inversion; "large": a
+few matrices per run sized so that counts, products of counts and their sums over loci cross 2**15, 2**16, 2**24, 2**31
+and 2**32); the returned values are judged by the integer/Fraction reference model in pbmon/oracle/c09_popgen.py
+(``LargeRef`` for the large family: int64 counts cross-checked by a second route, then exact integers).
 """
 import numpy
 
@@ -72,7 +74,15 @@ RULE = ("seeded class-based matrices: ploidy 2 (65 %) or 1/3/4/6; ntaxa from {1,
         "(raw calls, labels, group metadata, anything else in its __dict__); for 12 % of the fresh subjects and 7 % of the "
         "history/derived/genotyping states an overwrite phase calls every statistic with the default dtype, the stored dtype "
         "of the raw calls (int8) and one more requested dtype, and every coding, twice each, overwrites every element of "
-        "every returned array, and then checks raw calls (against the monitor's own copy), labels and all statistics.")
+        "every returned array, and then checks raw calls (against the monitor's own copy), labels and all statistics.  "
+        "Large matrices (C09.scale, 24 cases per quick run, 192 thorough, size class fixed by the case number so that every run "
+        "holds every class): 2400-6400 chromosome copies x as many loci (spread / all-at-1/2 / with fixed loci) as put the sum "
+        "over loci of count*(copies-count) 8-50 % above 2**31 or above 2**32; ploidy*ntaxa just above 2**15; ntaxa just above "
+        "2**15; ntaxa above 2**16 with one locus at frequency 1/2 (a single count*(copies-count) above 2**31, copies**2 above "
+        "2**32); 2**15+ and 2**16+ loci x 1-30 taxa; more than 2**24 copies at one locus (count == copies or copies-1, once "
+        "per 24 cases); ploidy 2 (60 %) or 1/3/4/6, one locus fixed at 1 in every many-taxa case, C or Fortran order; phased "
+        "matrix and unphased projection (alternately direct / via DenseUnphasedGenotyping), every statistic with the default "
+        "dtype and one requested dtype (int16/uint16/int32/uint32/float32 preferred for counts), codings for diploids.")
 ASSUME = [
     "alleles are coded 0/1 per chromosome copy (phased) or 0..ploidy per taxon (unphased); other values are out of domain",
     "meh: (ploidy/m)*sum p(1-p) (2pq averaged over loci for diploids); for ploidy != 2 the gene-diversity reading "
@@ -85,6 +95,9 @@ ASSUME = [
     "a requested dtype that cannot represent the statistic (integer/bool for a frequency, bool for a count) is only "
     "asserted to be honoured (result dtype), not its values",
     "float comparison: |a-b| <= 1e-9 + 1e-12 (all quantities are O(1)); float32 requests: 2**-20",
+    "large matrices: a requested count dtype that cannot hold the largest count exactly (integer type too narrow, float32 "
+    "above 2**24) is a lossy request like integer-for-frequency: only dtype and shape are asserted; the reference counts of "
+    "the large family are int64 numpy reductions (cannot wrap), cross-checked by a route that never adds the calls",
     "numpy integer summation / comparison used by the monitor's comparisons is trusted",
     "history clause: the raw calls are whatever the object's mat holds after the operation (the operations' own "
     "correctness is property C03); an operation that raises is counted under 'raised' and the (unchanged) object is "
